@@ -1,5 +1,7 @@
 (* C01 - Hostile server responses never crash or hang a query.
-   Rows proved so far: valve::query (every Valve game wrapper calls it). *)
+   Rows proved: every UDP / TCP protocol of the library (Valve and the games on it, Quake, Unreal 2,
+   GameSpy 1 / 2 / 3, JC2-MP, Savage 2, Mindustry, all Minecraft entry points). Not modelled: Eco (HTTP),
+   Epic and Minetest (HTTP + TLS). *)
 From GD Require Import Base.Prelude Model.Strings Model.Buffer Model.Net Model.Valve Model.Quake Model.Unreal2 Proofs.Msafe Proofs.ValveTotal Proofs.QuakeTotal Proofs.Unreal2Total.
 From GD Require Import Model.Gamespy Model.Games Model.View Model.Minecraft Proofs.GamesTotal.
 
@@ -67,3 +69,33 @@ Theorem c01_parsers_safe : Rsafe ffow_parse /\ Rsafe savage2_parse /\ Rsafe mind
   /\ (forall g d, safe (legacy_parse g d)) /\ (forall v, safe (java_of_value v)).
 Proof. exact (conj ffow_parse_safe (conj savage2_parse_safe (conj mindustry_parse_safe (conj bedrock_parse_safe (conj legacy_parse_safe java_of_value_safe))))). Qed.
 Print Assumptions c01_parsers_safe.
+
+(* GameSpy 1 / 2 / 3 (every GameSpy game wrapper calls one of these), the GameSpy 3 variables-only
+   query Minecraft's GameSpy path uses, and Just Cause 2: Multiplayer: for every script the query
+   returns a response or an error. The loops of these protocols (parts of a GameSpy 1 reply, packets
+   of a GameSpy 3 reply, key/value runs, tables, player sections) are fuelled in the model by the
+   length of what is left to read; the theorem includes that the fuel never runs out, i.e. every
+   round consumes a byte or a datagram. *)
+From GD Require Import Proofs.GamespyTotal Proofs.ValveGamesTotal.
+Theorem c01_gamespy_total : forall port t u tc sf, settings_ok t ->
+  safe (fst (gs1_query port t (net_init u tc sf))) /\
+  safe (fst (gs2_query port t (net_init u tc sf))) /\
+  safe (fst (gs3_query port t (net_init u tc sf))) /\
+  safe (fst (gs3_query_vars port t (net_init u tc sf))) /\
+  safe (fst (jc2m_query port t (net_init u tc sf))).
+Proof.
+  exact (fun port t u tc sf H => conj (gamespy1_total port t u tc sf H) (conj (gamespy2_total port t u tc sf H)
+          (conj (gamespy3_total port t u tc sf H) (conj (gamespy3_vars_total port t u tc sf H) (jc2m_total port t u tc sf H))))).
+Qed.
+Print Assumptions c01_gamespy_total.
+
+(* The Ship, Battalion 1944 and Frontlines: Fuel of War sit on the Valve exchange *)
+Theorem c01_valve_games_total : forall bz, (forall p s, safe (bz p s)) -> forall port t u tc sf, settings_ok t ->
+  safe (fst (theship_query bz port t (net_init u tc sf))) /\
+  safe (fst (battalion_query bz port (net_init u tc sf))) /\
+  safe (fst (ffow_query bz port t (net_init u tc sf))).
+Proof.
+  exact (fun bz Hbz port t u tc sf H => conj (theship_total bz Hbz port t u tc sf H)
+          (conj (battalion_total bz Hbz port u tc sf) (ffow_total bz Hbz port t u tc sf H))).
+Qed.
+Print Assumptions c01_valve_games_total.
